@@ -8,6 +8,7 @@ import (
 	"fmt"
 	"math/rand"
 	"strings"
+	"sync"
 
 	"github.com/trustbloc/sidetree-go/pkg/commitment"
 	"github.com/trustbloc/sidetree-go/pkg/docutil"
@@ -199,6 +200,12 @@ func genC04(seed int64, tier string) []caseOut {
 	}
 	r := rand.New(rand.NewSource(seed))
 	var out []caseOut
+	type c04key struct {
+		m, m2 map[string]interface{}
+		code  uint
+		kind  string
+	}
+	var keyCases []c04key
 	for i := 0; i < n; i++ {
 		kind := keyKinds[r.Intn(len(keyKinds))]
 		k := genKey(r, kind)
@@ -253,6 +260,7 @@ func genC04(seed int64, tier string) []caseOut {
 		}
 		c2, c2err := commitment.GetCommitment(toJWK(m2), code)
 		hh := sha256.Sum256([]byte(fmt.Sprint(m, code)))
+		keyCases = append(keyCases, c04key{m, m2, code, kind})
 		out = append(out, caseOut{
 			Coq: fmt.Sprintf("(mk_c04key %s %s %s %s %s %s %s)", cJSON(jwkImage(m)), cZu(uint64(code)), optStr(rv, rerr), optStr(c, cerr), optStr(cfr, ferr),
 				cJSON(jwkImage(m2)), optStr(c2, c2err)),
@@ -260,6 +268,84 @@ func genC04(seed int64, tier string) []caseOut {
 			Label:  fmt.Sprintf("key:%s,code-%d", kind, code),
 			NonTri: fmt.Sprintf("%x", hh[:8]),
 		})
+	}
+	// the same values computed by several goroutines at once (different keys, nothing shared by the
+	// callers): whatever a call returns then is judged like the sequential result
+	{
+		type res struct {
+			idx            int
+			rv, c, cfr, c2 string
+			e1, e2, e3, e4 error
+			panicked       bool
+		}
+		limit := len(keyCases)
+		if limit > 40 {
+			limit = 40
+		}
+		compute := func(kc c04key) (o res) {
+			defer func() {
+				if recover() != nil {
+					o.panicked = true
+				}
+			}()
+			jwk := toJWK(kc.m)
+			o.rv, o.e1 = commitment.GetRevealValue(jwk, kc.code)
+			o.c, o.e2 = commitment.GetCommitment(jwk, kc.code)
+			o.cfr, o.e3 = "", fmt.Errorf("no reveal")
+			if o.e1 == nil {
+				o.cfr, o.e3 = commitment.GetCommitmentFromRevealValue(o.rv)
+			}
+			o.c2, o.e4 = commitment.GetCommitment(toJWK(kc.m2), kc.code)
+			return o
+		}
+		seq := make([]res, limit)
+		for i := 0; i < limit; i++ {
+			seq[i] = compute(keyCases[i])
+		}
+		same := func(a, b res) bool {
+			return !b.panicked && a.rv == b.rv && a.c == b.c && a.cfr == b.cfr && a.c2 == b.c2 &&
+				(a.e1 == nil) == (b.e1 == nil) && (a.e2 == nil) == (b.e2 == nil) && (a.e3 == nil) == (b.e3 == nil) && (a.e4 == nil) == (b.e4 == nil)
+		}
+		const workers = 8
+		bad := make([]*res, workers)
+		var wg sync.WaitGroup
+		for w := 0; w < workers; w++ {
+			wg.Add(1)
+			go func(w int) {
+				defer wg.Done()
+				for round := 0; round < 25 && bad[w] == nil; round++ {
+					for i := w % limit; i < limit; i += 1 {
+						o := compute(keyCases[i])
+						o.idx = i
+						if !same(seq[i], o) {
+							bad[w] = &o
+							break
+						}
+					}
+				}
+			}(w)
+		}
+		wg.Wait()
+		reported := map[int]bool{}
+		for _, b := range bad {
+			if b == nil || reported[b.idx] {
+				continue
+			}
+			reported[b.idx] = true
+			kc := keyCases[b.idx]
+			if b.panicked {
+				b.e1, b.e2, b.e3, b.e4 = fmt.Errorf("panic"), fmt.Errorf("panic"), fmt.Errorf("panic"), fmt.Errorf("panic")
+			}
+			hh := sha256.Sum256([]byte(fmt.Sprint("concurrent", kc.m, kc.code)))
+			out = append(out, caseOut{
+				Coq: fmt.Sprintf("(mk_c04key %s %s %s %s %s %s %s)", cJSON(jwkImage(kc.m)), cZu(uint64(kc.code)), optStr(b.rv, b.e1), optStr(b.c, b.e2), optStr(b.cfr, b.e3),
+					cJSON(jwkImage(kc.m2)), optStr(b.c2, b.e4)),
+				Rec: map[string]interface{}{"jwk": kc.m, "code": kc.code, "reveal": b.rv, "commitment": b.c, "commitment_from_reveal": b.cfr, "other_jwk": kc.m2, "other_commitment": b.c2,
+					"computed": "by one of 8 goroutines working on different keys at the same time", "panicked": b.panicked},
+				Label:  fmt.Sprintf("key:%s,code-%d,concurrent", kc.kind, kc.code),
+				NonTri: fmt.Sprintf("%x", hh[:8]),
+			})
+		}
 	}
 	// chains create -> (update|recover)* -> deactivate, values reported by the real parser
 	for i := 0; i < chains; i++ {
@@ -271,6 +357,9 @@ func genC04(seed int64, tier string) []caseOut {
 		kinds := []string{keyKinds[r.Intn(len(keyKinds))]}
 		d := &didState{r: r, cfg: base, code: code, kinds: kinds}
 		p := operationparser.New(base)
+		if i%2 == 1 { // request-time validators that refuse everything: GetRevealValue / GetCommitment read anchored operations
+			p = operationparser.New(base, operationparser.WithAnchorTimeValidator(refuseTime{}), operationparser.WithAnchorOriginValidator(refuseOrigin{}))
+		}
 		var links []string
 		var recs []interface{}
 		length := 2 + r.Intn(7)
@@ -288,6 +377,9 @@ func genC04(seed int64, tier string) []caseOut {
 			mut := ""
 			if typ == "deactivate" && r.Intn(2) == 0 {
 				mut = "extra_signed_commitments" // members the deactivate model does not have: still a deactivate, still no next commitment
+			}
+			if typ == "recover" && i%3 == 2 { // a recover whose delta this node would refuse at request time still advances the recovery commitment
+				mut = "delta_invalid_patch"
 			}
 			b := d.buildOp(typ, mut, uint64(1000+j), &cfg)
 			switch typ {
